@@ -57,8 +57,8 @@ def r06_3(facts, res, rule="R06-3"):
     missing = [v for v in variants if v not in seen]
     if missing:
         raise BrokenCheck("R06-3: variants without arm: %s" % missing)
-    if st["instances"] < 14:
-        raise BrokenCheck("R06-3: %d variants seen, floor 14" % st["instances"])
+    if st["instances"] < 8:
+        raise BrokenCheck("R06-3: %d variants seen, floor 8" % st["instances"])
 
 
 def run(facts, tier):
@@ -82,13 +82,13 @@ def run(facts, tier):
     reach, parent = e1.panic_rule(facts, res, "R06-1", roots, reasons, ctx)
     res.extra["preconditions"] = {k: v[1] for k, v in verdicts.items()}
     res.functions_analysed = len(reach)
-    if res.rules["R06-1"]["instances"] < 40:
-        raise BrokenCheck("R06-1: %d sites, floor 40" % res.rules["R06-1"]["instances"])
+    if res.rules["R06-1"]["instances"] < 24:
+        raise BrokenCheck("R06-1: %d sites, floor 24" % res.rules["R06-1"]["instances"])
     ex = tokens.extractor_for_xpath(facts)
     c03.r03_2(facts, res, "R06-2", ex, lambda f: f["crate"] == "xml_xpath" and f["path"].startswith("xml_xpath::expr::")
               and f["kind"] == "Fn" and "::model::" not in f["path"])
-    if res.rules["R06-2"]["instances"] < 10:
-        raise BrokenCheck("R06-2: %d alts on recursive productions, floor 10" % res.rules["R06-2"]["instances"])
+    if res.rules["R06-2"]["instances"] < 6:
+        raise BrokenCheck("R06-2: %d alts on recursive productions, floor 6" % res.rules["R06-2"]["instances"])
     r06_3(facts, res)
     c03.r03_3(facts, res, "R06-4", reach, reasons_e1.scc_reasons(facts, reach))
     import guards
@@ -173,5 +173,5 @@ def r06_5(facts, res, reach):
                                     "%s evaluates the same sub-expression twice on one path (calls of %s at lines %s and %s): the cost doubles "
                                     "with every nesting level" % (f["path"], facts.fns[cid]["path"], bad[0][1].get("ln"), bad[1][1].get("ln")),
                                     f["file"], bad[1][1].get("ln"), {}))
-    if st["instances"] < 10:
-        raise BrokenCheck("R06-5: %d recursive evaluator call groups (floor 10)" % st["instances"])
+    if st["instances"] < 6:
+        raise BrokenCheck("R06-5: %d recursive evaluator call groups (floor 6)" % st["instances"])
